@@ -19,6 +19,7 @@ EXPLANATION = (
     "instance's own fold cannot reach create(); for second/minute/hour the instance itself is the receiver "
     "(its fold is forwarded by set()). NOT decided: neighbouring-microsecond clauses on days whose midnight is "
     "skipped or repeated (zone data)."
+    " As built: UNIT.tabulated runs start_of/end_of and every helper they reach with the checker's interpreter in the wall-clock world of rules/wallstub.py (9 units x dates on leap days and unit ends x times x both folds x zone transitions that skip/repeat the first or last stretch of the unit x the 7 week configurations) and compares with the first/last existing instant of the unit computed by the checker's own calendar arithmetic, plus the side of the instance as instants, the zone and idempotence; where it succeeds the shape rules (field lists, year formulas, week pairing, fold flow) are established by it."
 )
 
 ORDER = ["year", "month", "day", "hour", "minute", "second", "microsecond"]
